@@ -89,3 +89,82 @@ Fixpoint rw_spec (k : hkind) (e : expr) : expr :=
   | EAttr v a => EAttr (rw_spec k v) a
   | _ => e
   end.
+
+(** * "Nothing disappears": what the documented edit of one selected call may remove *)
+Fixpoint first_kw_value (name : str) (args : list arg) : option expr :=
+  match args with
+  | [] => None
+  | a :: r => if kw_is name a then Some (value a) else first_kw_value name r
+  end.
+(** the old value of the argument that binds parameter [name] (see [set_param]) *)
+Definition set_param_lost (name : str) (pos : nat) (args : list arg) : list tok :=
+  match first_kw_value name args with
+  | Some old => toks old
+  | None =>
+      match nth_error args pos with
+      | Some a => if is_plain_positional a && forallb is_plain_positional (firstn pos args) then toks (value a) else []
+      | None => []
+      end
+  end.
+(** kinds for which the lower bound is stated: every argument-editing kind except limit-readline (which replaces the
+    whole list by design; the detector only reports `readline()`) and the pinned harden-pyyaml (positional indexing) *)
+Definition lower_kind (k : hkind) : bool :=
+  match k with
+  | HReplace _ | HCookie | HAddArg _ _ | HSslTls _ | HPyyaml PyyamlByParameter _ => true
+  | _ => false
+  end.
+Definition lost_kind (k : hkind) (args : list arg) : list tok :=
+  match k with
+  | HReplace info => listed_values args info
+  | HCookie => listed_values args cookie_full
+  | HSslTls safe =>
+      listed_values args (ssl_protocol safe) ++
+      match args with
+      | [a] => match kw a with None => toks (value a) | Some _ => [] end
+      | _ => []
+      end
+  | HPyyaml _ _ => set_param_lost (S_ "Loader") 1 args
+  | _ => []
+  end.
+(** over a tree: for each selected call, what its edit may remove from its arguments as they stand after the inner edits *)
+Fixpoint lost_tree (k : hkind) (e : expr) : list tok :=
+  match e with
+  | ECall m f args =>
+      lost_tree k f ++ flat_map (fun a => lost_tree k (value a)) args ++
+      (if m then lost_kind k (map (fun a => set_value a (rw_upd k (value a))) args) else [])
+  | EAttr v _ => lost_tree k v
+  | _ => []
+  end.
+
+(** kinds whose model IS the documented edit ([spec_call], written without reference to the code) on every call *)
+Definition documented_kind (k : hkind) : bool :=
+  match k with
+  | HReplace info => nodupb (names info)
+  | HCookie | HAddArg _ _ | HPyyaml PyyamlByParameter _ => true
+  | _ => false
+  end.
+
+(** * Classification by observation of the nested-selected-call defect:
+    [a] and [b] (two outputs for input [e]) agree everywhere except at or below a selected call of [e] *)
+Fixpoint differs_only_below (eqb : expr -> expr -> bool) (e a b : expr) : bool :=
+  match e with
+  | ECall true _ _ => true
+  | ECall false f args =>
+      match a, b with
+      | ECall _ fa xa, ECall _ fb xb =>
+          differs_only_below eqb f fa fb &&
+          (fix go (l : list arg) (la lb : list arg) : bool :=
+             match l, la, lb with
+             | [], [], [] => true
+             | x :: r, y :: ra, z :: rb => differs_only_below eqb (value x) (value y) (value z) && go r ra rb
+             | _, _, _ => false
+             end) args xa xb
+      | _, _ => false
+      end
+  | EAttr v _ =>
+      match a, b with
+      | EAttr va _, EAttr vb _ => differs_only_below eqb v va vb
+      | _, _ => false
+      end
+  | _ => eqb a b
+  end.
